@@ -19,5 +19,7 @@ esac
 mkdir -p "$W/ev" "$W/rp"
 VERIF_REPO="$W/repo" VERIF_EVIDENCE_DIR="$W/ev" VERIF_REPLAY_DIR="$W/rp" "$HERE/check" "$ID" "$@" > "$W/out.txt" 2>&1
 rc=$?
+# KEEP_REPLAYS=<dir>: keep the shrunk replay files of this run
+[ -n "${KEEP_REPLAYS:-}" ] && mkdir -p "$KEEP_REPLAYS" && cp "$W"/rp/*.json "$KEEP_REPLAYS"/ 2>/dev/null
 grep -v '^classes:' "$W/out.txt"
 echo "mutant exit=$rc"
